@@ -9,8 +9,8 @@ Line protocol (one answer line per input line):
   link <bw> <enA> <enB>          append a wired link                      -> ok
   chan <cap0,cap1,...> <en0> <en1> ...   append a wireless channel (hz); cap_i = capacity of interface i's frequency name -> ok
   tick                           Network.pre_timestep                     -> dump
-  setbw <k> <v>                  link k: bandwidth := v                   -> dump
-  setcap <c> <i> <v>             channel c, interface i: capacity of its frequency name := v -> dump
+  setbw <k> <v>                  link k: bandwidth := v                   -> ok
+  setcap <c> <i> <v>             channel c, interface i: capacity of its frequency name := v -> ok
   act <event tokens>             one top-level action (a forest)          -> records ` | ` dump
   dump                                                                    -> dump
   reset                          (handled by runDriver)                   -> ok
@@ -31,7 +31,9 @@ def showVerdict : Verdict → String
 
 def showRec (r : Rec) : String :=
   if r.wireless then
-    s!"W{r.k}:{showVerdict r.verdict}:{showBool r.enS}:{",".intercalate (r.rcv.map toString)}:{r.load}"
+    -- a wireless send cut short by an exception: which receivers had been reached is not compared
+    let rcv := if r.verdict == .lost then "*" else ",".intercalate (r.rcv.map toString)
+    s!"W{r.k}:{showVerdict r.verdict}:{showBool r.enS}:{rcv}:{r.load}"
   else
     s!"S{r.k}:{showVerdict r.verdict}:{showBool r.enS}{showBool r.enR}:{r.load}"
 
@@ -106,11 +108,11 @@ def step' (n : Net) : List String → Net × String
   | ["tick"] => let r := step n .tick; (r.1, dump r.1)
   | ["setbw", k, v] =>
     match k.toNat?, v.toNat? with
-    | some k, some v => let r := step n (.setBw k v); (r.1, dump r.1)
+    | some k, some v => let r := step n (.setBw k v); (r.1, "ok")
     | _, _ => (n, "bad-op")
   | ["setcap", c, i, v] =>
     match c.toNat?, i.toNat?, v.toNat? with
-    | some c, some i, some v => let r := step n (.setCap c i v); (r.1, dump r.1)
+    | some c, some i, some v => let r := step n (.setCap c i v); (r.1, "ok")
     | _, _, _ => (n, "bad-op")
   | "act" :: toks =>
     match parseEvs (2 * toks.length + 2) toks with
